@@ -175,7 +175,7 @@ CLAIMS = {
                      "reads, SIMD: C04_html/xml_default_mode_exactly_one_eof, Inst/InstEofDefault.v). All four clauses of the property are thereby theorems about the "
                      "tokenizer interpreters in reference semantics. Tree builders, stack depth and "
                      "time are covered by the harness only (panic/abort/hang watch, queue-empty and single-EOF oracles, deep nesting).",
-                note=TOK_NOTE, tech="reflective Coq checks (EOF rank, char-ref states) + Coq termination proof of the tokenizer interpreter with explicit fuel bound (potential function, rank check on the regenerated table) + totality oracle incl. pathological inputs"),
+                note=TOK_NOTE, tech="Coq proofs over the tokenizer interpreters on the regenerated tables: termination with explicit fuel bound (potential function, rank check), no-panic invariant, all-input-consumed and exactly-one-EOF (frame lemmas per interpreter primitive, no hypotheses), transported to default mode through the BulkSim simulation; reflective Coq checks (EOF rank, char-ref states, noeofb, eof_ok) + totality oracle incl. pathological inputs"),
     "C08": dict(cat="proof", ref="DESIGN.md section 5 C08",
                 text="PARTIAL proof. Props/C08.v proves on the regenerated tables that every bulk-read state's character set contains "
                      "every character the slow path treats specially and that its default arm is the per-character form of the run "
